@@ -209,3 +209,23 @@ func corrAc3(id *int, r *hx.Rng, n int) {
 		}
 	}
 }
+
+// checkAc3Decoded: the ac-3 / ec-3 entry e of the DECODED init carries a dac3 / dec3 whose every field (every substream, in
+// order, no Reserved bytes, no initial zeroes) is the one supplied to Set{AC3,EC3}Descriptor (theorems
+// C19_descriptor_ac3_decoded / C19_descriptor_ec3_decoded); the supplied values were recorded before the call.
+func checkAc3Decoded(e mp4.Box, o *op, wit string) {
+	site, got := "SetAC3Descriptor", "no ac-3/dac3"
+	if o.kind == 'E' {
+		site, got = "SetEC3Descriptor", "no ec-3/dec3"
+	}
+	if a, ok := e.(*mp4.AudioSampleEntryBox); ok {
+		if o.kind == '3' && a.Dac3 != nil {
+			got = ac3Show(a.Dac3)
+		} else if o.kind == 'E' && a.Dec3 != nil {
+			got = ac3Show(a.Dec3)
+		}
+	}
+	if got != o.ac3Sup {
+		fail(site, "config-decoded", wit, fmt.Sprintf("decoded init: %s, supplied: %s", got, o.ac3Sup))
+	}
+}
